@@ -11,6 +11,7 @@ import (
 	"fmt"
 	"os"
 	"path"
+	"strconv"
 	"strings"
 	"sync"
 	"time"
@@ -229,6 +230,15 @@ func (c *rapidContext) watchEvents(events <-chan supvmodel.Event) {
 		}
 		termination := event.Event.ProcessTerminated()
 
+		// A notification that is handled late, after the generation of its process has
+		// already been shut down, must not disturb the current generation: it neither
+		// records a fatal error nor cancels the flows.
+		if gen, ok := generationOfProcess(*termination.Name); ok && gen < c.runtimeDomainGeneration {
+			log.Warnf("Process %s of an earlier generation exited: %+v", *termination.Name, termination)
+			c.shutdownContext.handleStaleProcessExit(*termination.Name)
+			continue
+		}
+
 		// If we are not shutting down then we care if an unexpected exit happens.
 		if !c.shutdownContext.isShuttingDown() {
 			runtimeProcessName := fmt.Sprintf("%s-%d", runtimeProcessName, c.runtimeDomainGeneration)
@@ -264,6 +274,17 @@ func (c *rapidContext) watchEvents(events <-chan supvmodel.Event) {
 		// about what we send to handleShutdownEvent().
 		c.shutdownContext.handleProcessExit(*termination)
 	}
+}
+
+// generationOfProcess returns the runtime domain generation a process name ("runtime-<gen>",
+// "extension-<name>-<gen>") was created for.
+func generationOfProcess(name string) (uint32, bool) {
+	i := strings.LastIndex(name, "-")
+	if i < 0 {
+		return 0, false
+	}
+	gen, err := strconv.ParseUint(name[i+1:], 10, 32)
+	return uint32(gen), err == nil
 }
 
 // subscribe to /events for runtime domain in supervisor
